@@ -160,6 +160,55 @@ def tolerance_trio(ck):
     ck.require(n >= 1, 'trio provide never reached assert_slippage_tolerance')
 
 
+def tolerance_pair_args(ck, prog):
+    """the pair's deposit hands its slippage test the deposits in POOL order (the caller may list the assets in either order), the reserves net of
+    fees and of the credited deposit, the pool type, the minted amount and the LP supply."""
+    AST = 'terraswap_pair::helpers::assert_slippage_tolerance'
+    def spy(it, a, c):
+        it.extra['ast_args'] = [dup(deref(x)) for x in a]
+        return it.run(it.prog.get(AST), list(a))
+    for ptype in ('cp',):
+        for cfg in ('nc', 'cn'):
+            kinds = KIND_CFGS[cfg]
+            n = 0
+            for p in ck.explore(prog, provide_body(kinds, slippage=True, pair_type=ptype), 'tolerance.pair.args.%s.%s' % (ptype, cfg), stubs={AST: spy}):
+                if 'ast_args' not in p.extra: continue
+                n += 1
+                a = p.extra['ast_args']; st = p.extra['st']; dd = p.extra['d']
+                R = [st['b'][i] - st['f'][i] - (dd[i] if kinds[i] == 'native' else 0) for i in (0, 1)]
+                tol = a[0]
+                bad = True if tol.variant != 'Some' else z3.Or(tol.fields[0].fields[0] != z3.Int('slippage'), *[a[1].fields[i].fields[0] != dd[i] for i in (0, 1)],
+                                                              *[a[2].fields[i].fields[1].fields[0] != R[i] for i in (0, 1)], a[5].fields[0] != st['S'])
+                ck.oblige('C15.tolerance.pair.args.%s.%s' % (ptype, cfg), p, bad, 'deposits in pool order, reserves net of fees and of the credited deposit, the LP supply and the caller\'s tolerance reach the test')
+            ck.require(n >= 1, 'pair provide (%s, %s) never reached assert_slippage_tolerance' % (ptype, cfg))
+
+
+def trio_swap_args(ck):
+    """three-asset pool: swap checks slippage on (offer, return + ALL fees, spread) with the caller's limits."""
+    import lib_trio as LT
+    prog3 = ck.program('stableswap_3pool', 'white_whale_std')
+    SCN = 'stableswap_3pool::helpers::SwapComputation'
+    def stub_cs(it, a, c):
+        x = it.ctx
+        return OK(it.mk(SCN, return_amount=U128(x.sym('sc_ret', 120)), spread_amount=U128(x.sym('sc_spread', 120)), swap_fee_amount=U128(x.sym('sc_swap', 120)),
+                        protocol_fee_amount=U128(x.sym('sc_prot', 120)), burn_fee_amount=U128(x.sym('sc_burn', 120))))
+    def stub_ams(it, a, c):
+        it.extra['ams_args'] = [dup(v) for v in a]
+        return OK(UNIT())
+    kinds = ('native', 'native', 'cw20')
+    for oi, ai in ((0, 1), (2, 0)):
+        n = 0
+        for p in ck.explore(prog3, LT.tswap_body(kinds, oi, ai, belief=True), 'trio.swap_args.o%d' % oi, validate=False, stubs={'stableswap_3pool::helpers::compute_swap': stub_cs, AMS: stub_ams}):
+            if 'ams_args' not in p.extra:
+                continue
+            n += 1
+            a = p.extra['ams_args']
+            ret, sp, sw, pr, bu = [z3.Int(k) for k in ('sc_ret', 'sc_spread', 'sc_swap', 'sc_prot', 'sc_burn')]
+            bad = z3.Or(a[0].fields[0].fields[0] != z3.Int('belief_price'), a[1].fields[0].fields[0] != z3.Int('max_spread'), a[2].fields[0] != p.extra['offer'], a[3].fields[0] != ret + sw + pr + bu, a[4].fields[0] != sp)
+            ck.oblige('C15.trio.swap.args.o%d' % oi, p, bad, 'the three-asset swap checks slippage on (offer, return + swap + protocol + burn fee, spread) with the caller\'s limits')
+        ck.require(n >= 1, 'trio swap never reached assert_max_spread (o%d)' % oi)
+
+
 def swap_args(ck, prog):
     """entry level: swap passes (offer amount, return + all fees, spread) to assert_max_spread."""
     SCN = 'terraswap_pair::helpers::SwapComputation'
@@ -282,7 +331,9 @@ def main():
     prog = ck.program('terraswap_pair', 'white_whale_std')
     max_spread_checks(ck, prog)
     tolerance_pair(ck, prog)
+    tolerance_pair_args(ck, prog)
     tolerance_trio(ck)
+    trio_swap_args(ck)
     swap_args(ck, prog)
     router_checks(ck, ck.program('terraswap_router', 'white_whale_std'))
     ck.bounds.update(widths='all amounts, prices, spreads and tolerances full u128 / any Decimal', routes='router: 1..3 hops over a fixed alternating native/cw20 asset chain, receiver given or defaulting to the sender')
